@@ -8,7 +8,7 @@ from ..core import AnalysisError
 from ..poly import P
 from ..symex import Ev, find_atoms, call_name, seq_items, obj_init
 from ..layout import pieces_of, Spec
-from .generic import string_value, dict_items
+from .generic import string_value, dict_items, list_appends
 
 MOD = "fmt/cif.py"
 
@@ -49,6 +49,24 @@ def prefixes_in(cond: P):
     for a in find_atoms(cond, lambda a: a[0] == "in" and a[2].key() == "self.line_dispatch"):
         out.append(("dispatch",))
     return out
+
+
+def false_when(value: P):
+    """Conditions each of which makes the returned boolean ``value`` False: ``not X`` is False under X,
+    ``a not in b`` under ``a in b``, a conjunction under any of its members' conditions."""
+    a = value.as_atom()
+    if not a:
+        return []
+    if a[0] == "not":
+        return [a[1]]
+    if a[0] == "notin":
+        return [P.atom(("in", a[1], a[2]))]
+    if a[0] == "and":
+        out = []
+        for x in a[1]:
+            out.extend(false_when(x))
+        return out
+    return []
 
 
 def regex_literal(mod, name):
@@ -110,6 +128,9 @@ def r15_1(chk, mod):
     rejects = []
     for e in tv.returns:
         if e.value.key() != "False":
+            # a boolean returned directly: the line is rejected whenever the expression is False
+            for c in false_when(e.value):
+                rejects.extend(prefixes_in(c))
             continue
         for c, pol in e.guards:
             if pol:
@@ -330,7 +351,7 @@ def r15_4(chk, mod):
         if e.kind == "assign" and e.name == "lines":
             lines_obj = e.value
     chk.need(lines_obj is not None, f"{q}: 'lines' list not found")
-    appends = [e for e in ev.events if e.kind == "call" and e.target is not None and e.target.key() == f"{lines_obj}.append"]
+    appends = list_appends(ev, lines_obj)
     # name / column pairing in the same loop iteration
     name_app = [e for e in appends if pieces_of(e.extra["args"][0]) and pieces_of(e.extra["args"][0])[0].kind == "lit"
                 and pieces_of(e.extra["args"][0])[0].text == "_" and len(e.loops) >= 3]
@@ -364,6 +385,19 @@ def r15_4(chk, mod):
     strict = any(dict(e.extra["kwargs"]).get("strict") is not None for e in ev.events if e.kind == "call"
                  and call_name(e.value.as_atom() or ()) == "zip")
     chk.ob("R15.4", MOD, q, "columns zipped together have equal length (grouped by length, or zip(strict=True))", oklen or strict)
+    # the names grouped into loops are those of the block being written: the list the grouping reads is created in the same
+    # iteration of the block loop that fills and reads it (created once before the loop it still holds the previous blocks' names)
+    fresh, nm_found = False, None
+    for e in gb:
+        arg = e.extra["args"][0] if e.extra.get("args") else None
+        aa = arg.as_atom() if arg is not None else None
+        if aa and aa[0] == "obj" and e.loops:
+            born = [b for b in ev.events if b.kind == "assign" and b.value is not None and b.value.key() == arg.key()]
+            nm_found = aa[1]
+            fresh = bool(born) and bool(born[0].loops) and born[0].loops[0] is e.loops[0]
+            break
+    chk.ob("R15.4", MOD, q, "the loop item names grouped for a block are collected for that block (the list is created inside the loop over blocks)",
+           fresh, fingerprint="names-per-block", found=f"list '{nm_found}' is created outside the loop over data blocks" if nm_found and not fresh else nm_found)
     # terminating non-data line and newline join
     end = [e for e in appends if not e.loops and string_value(e.extra["args"][0]) is not None]
     okend = bool(end) and any((string_value(e.extra["args"][0]) or "").startswith(("#", "_", "data_", "loop_")) for e in end[-1:])
